@@ -35,6 +35,13 @@
 (*            context (write_namespaces: context._clean_inheritance_tokens()*)
 (*            per namespace; TemplateNamespace.__init__ -> _populate_self_  *)
 (*            namespace writes self/local into that copy).                  *)
+(*  "imports" one template with 1..3 <%namespace ... import=...> tags, each   *)
+(*            NAMED or ANONYMOUS (no name=), kind file / inline / module,   *)
+(*            import="d" or "*", written each on its own line / all on one  *)
+(*            line / on one line separated by text; every tag is a          *)
+(*            namespace of its own whose imports are populated              *)
+(*            (parsetree.NamespaceTag name, codegen.write_toplevel          *)
+(*            namespaces[...], write_variable_declares _populate).          *)
 (*  "incpos"  where the <%include> stands in the includer and where the      *)
 (*            values of T's <%page args="a=0, b=0"/> can come from: args=,  *)
 (*            a render() kwarg, a body-level <% %> assignment made before,  *)
@@ -92,7 +99,7 @@ ApiSp == {1, 2, 3, 5, 8, 11, 12, 13}          \* quick tier: spellings used for 
 UriConfigs ==
   LET W == 1..Len(Dirs)  S == 1..NSp  L == 1..3 IN
   (* single requests: every kind of tag *)
-  {[fam |-> "uri", layout |-> l, reqs |-> <<Req(w, s, k, 0)>>] : l \in {1}, w \in W, s \in 1..NSp, k \in Kinds}
+  {[fam |-> "uri", layout |-> l, reqs |-> <<Req(w, s, k, 0)>>] : l \in (IF Tier = "quick" THEN {1, 3} ELSE L), w \in W, s \in 1..NSp, k \in Kinds}
   \cup {[fam |-> "uri", layout |-> l, reqs |-> <<Req(w, s, "include", 0)>>] : l \in {2, 3}, w \in W, s \in 1..NSp}
   (* the same spelling from two different directories on one lookup (memo) *)
   \cup UNION {{[fam |-> "uri", layout |-> l, reqs |-> <<Req(w, s, k, 0), Req(w2, s, k, 0)>>] :
@@ -115,20 +122,26 @@ NsConfigs ==
           imp : {"none", "p", "pq", "star"}] :
      /\ (c.kind = "inline" => c.F = {}) /\ c.I \cup c.F # {}
      /\ (c.imp \in {"p", "pq"} => Imported(c) \subseteq c.I \cup c.F)}
-InhConfigs == {c \in [fam : {"inh"}, N : 2..(IF Tier = "quick" THEN 3 ELSE 4), d : 1..4, kind : {"file", "module", "inline"}] : c.d <= c.N}
+(* viadef: the derived levels call self.ns.p() from their body / from inside a top-level def of theirs *)
+InhConfigs == {c \in [fam : {"inh"}, N : 2..(IF Tier = "quick" THEN 3 ELSE 4), d : 1..4, kind : {"file", "module", "inline"}, viadef : BOOLEAN] : c.d <= c.N}
 Pat == {"args", "ctx", "both", "none"}
 IncConfigs ==
-  {c \in [fam : {"include"}, pos : {"solo", "derived", "base"}, tgt : {"solo", "inherits"}, pa : Pat, pb : Pat, via : {"tag", "call"}] :
-     c.tgt = "inherits" => (c.pa = "none" /\ c.pb = "none")}
+  {c \in [fam : {"include"}, pos : {"solo", "derived", "base"}, tgt : {"solo", "inherits", "hasns"}, pa : Pat, pb : Pat, via : {"tag", "call"}] :
+     c.tgt # "solo" => (c.pa = "none" /\ c.pb = "none")}
 NsKinds == {"fa", "fb", "inl", "mod"}
 Perms(n) == {q \in [1..n -> NsKinds] : \A i, j \in 1..n : i # j => q[i] # q[j]}
 MultiConfigs == {[fam |-> "multins", decl |-> d, assign |-> a, spell |-> sp] :
                    d \in UNION {Perms(n) : n \in 1..3}, a \in BOOLEAN, sp \in {"rel", "abs"}}
+TagChoices == [anon : BOOLEAN, kind : {"file", "inline", "module"}, imp : {"one", "star"}]
+QuickKinds3 == {<<"file", "file", "inline">>, <<"file", "inline", "module">>, <<"module", "inline", "file">>, <<"inline", "file", "file">>}
+TagSeqs == [1..1 -> TagChoices] \cup [1..2 -> TagChoices]
+           \cup {q \in [1..3 -> TagChoices] : Tier # "quick" \/ <<q[1].kind, q[2].kind, q[3].kind>> \in QuickKinds3}
+ImportConfigs == {[fam |-> "imports", tags |-> t, layout |-> l, ctx |-> c] : t \in TagSeqs, l \in {"lines", "oneline", "text"}, c \in BOOLEAN}
 Sources == {"args", "render", "assign", "page"}
 IncPositions == {"body", "topdef", "selfdef", "calltag", "nested"}
 IncPosConfigs == {[fam |-> "incpos", pos |-> p, sa |-> x, sb |-> y] :
                     p \in IncPositions, x \in SUBSET Sources, y \in {{}, {"args"}, {"render"}, {"assign"}, {"page"}}}
-Configs == UriConfigs \cup NsConfigs \cup InhConfigs \cup IncConfigs \cup MultiConfigs \cup IncPosConfigs
+Configs == UriConfigs \cup NsConfigs \cup InhConfigs \cup IncConfigs \cup MultiConfigs \cup IncPosConfigs \cup ImportConfigs
 
 InitWith(c) == /\ cfg = c /\ pc = 1 /\ hop = 1 /\ cur = <<>> /\ memo = {} /\ imp = {} /\ sattr = {} /\ nsctx = <<>> /\ out = <<>> /\ phase = "run"
 Init == /\ cfg \in Configs /\ pc = 1 /\ hop = 1 /\ cur = <<>> /\ memo = {} /\ imp = {} /\ sattr = {} /\ nsctx = <<>> /\ out = <<>> /\ phase = "run"
@@ -193,7 +206,9 @@ Bodies ==
 ArgVal(pat) == CASE pat \in {"args", "both"} -> 1 [] pat = "ctx" -> 2 [] pat = "none" -> 0   \* args first, context second, default
 (* what the included template T sees: its own self/local, no parent/next of the includer *)
 TargetTokens(c) ==
-  IF c.tgt = "solo"
+  IF c.tgt = "hasns"      \* the included template declares a namespace of its own (file O) and uses it
+  THEN <<"open|T", "call|tn.who", "who|O", "call|self.who", "who|T", "call|local.who", "who|T", "call|parent.who", "ERR", "call|next.who", "ERR", "close|T">>
+  ELSE IF c.tgt = "solo"
   THEN <<"open|T", "arg|a|" \o ToString(ArgVal(c.pa)), "arg|b|" \o ToString(ArgVal(c.pb)),
          "call|self.who", "who|T", "call|local.who", "who|T", "call|parent.who", "ERR", "call|next.who", "ERR", "close|T">>
   ELSE <<"open|TB", "call|self.who", "who|T", "call|next.who", "who|T", "call|parent.who", "ERR",
@@ -205,6 +220,27 @@ Include ==
               [] cfg.pos = "derived" -> <<"open|B", "open|D">> \o TargetTokens(cfg) \o <<"close|D", "close|B">>
               [] cfg.pos = "base" -> <<"open|B">> \o TargetTokens(cfg) \o <<"open|D", "close|D", "close|B">>
   /\ pc' = 2
+  /\ UNCHANGED <<cfg, nsctx, hop, cur, memo, imp, sattr, phase>>
+
+(* ================================================================== family "imports" *)
+(* tag k provides the defs d<k> and e<k>; import="d<k>" or "*"; with cfg.ctx the context has callables of all those names *)
+DName(k) == "d" \o ToString(k)
+EName(k) == "e" \o ToString(k)
+ImportedBy(k) == IF cfg.tags[k].imp = "star" THEN {DName(k), EName(k)} ELSE {DName(k)}
+(* body start: EVERY tag with import= is a namespace of its own (named or not) and populates _import_ns *)
+PopulateTag ==
+  /\ phase = "run" /\ cfg.fam = "imports" /\ hop = 1 /\ pc <= Len(cfg.tags)
+  /\ imp' = imp \cup {[name |-> x, tag |-> pc] : x \in ImportedBy(pc)}
+  /\ (IF pc = Len(cfg.tags) THEN hop' = 2 /\ pc' = 1 ELSE hop' = 1 /\ pc' = pc + 1)
+  /\ UNCHANGED <<cfg, nsctx, cur, memo, sattr, out, phase>>
+ProviderTok(k, x) == "P" \o ToString(k) \o "|" \o x
+UnqualifiedTok(x) == IF \E m \in imp : m.name = x THEN ProviderTok((CHOOSE m \in imp : m.name = x).tag, x)
+                     ELSE IF cfg.ctx THEN "C|" \o x ELSE "ERR|" \o x
+TagCalls ==
+  /\ phase = "run" /\ cfg.fam = "imports" /\ hop = 2 /\ pc <= Len(cfg.tags)
+  /\ out' = out \o <<"call|" \o DName(pc), UnqualifiedTok(DName(pc)), "call|" \o EName(pc), UnqualifiedTok(EName(pc))>>
+               \o (IF cfg.tags[pc].anon THEN <<>> ELSE <<"call|n" \o ToString(pc) \o "." \o EName(pc), ProviderTok(pc, EName(pc))>>)
+  /\ pc' = pc + 1
   /\ UNCHANGED <<cfg, nsctx, hop, cur, memo, imp, sattr, phase>>
 
 (* ================================================================== family "incpos" *)
@@ -256,8 +292,9 @@ Finished ==
   CASE cfg.fam = "uri" -> pc > Len(cfg.reqs) [] cfg.fam = "nsprec" -> pc > 3
     [] cfg.fam = "inh" -> hop = 2 /\ pc > cfg.N [] cfg.fam \in {"include", "incpos"} -> pc > 1
     [] cfg.fam = "multins" -> hop = 2 /\ pc > Len(cfg.decl)
+    [] cfg.fam = "imports" -> hop = 2 /\ pc > Len(cfg.tags)
 Finish == /\ phase = "run" /\ Finished /\ phase' = "done" /\ UNCHANGED <<cfg, nsctx, pc, hop, cur, memo, imp, sattr, out>>
-Next == Resolve \/ PopulateImports \/ Calls \/ GenNamespaces \/ Bodies \/ Include \/ IncludeAt \/ MakeNamespace \/ Probe \/ Finish
+Next == Resolve \/ PopulateImports \/ Calls \/ GenNamespaces \/ Bodies \/ Include \/ IncludeAt \/ PopulateTag \/ TagCalls \/ MakeNamespace \/ Probe \/ Finish
 Spec == Init /\ [][Next]_vars
 
 (* ------------------------------------------------------------------ the property *)
@@ -283,8 +320,13 @@ UnresolvableRaisesLookup == (Done /\ cfg.fam = "uri") => \A k \in 1..Len(cfg.req
    (out[k] = "exc|lookup") <=> (ExpectReq(cfg.reqs[k]) = "exc|lookup")
 MemoConsistent == MemoConsistentOn(memo)
 InlineDefsWin == (Done /\ cfg.fam = "nsprec") => \A x \in cfg.I : "I|" \o x \in Toks /\ \A k \in 1..Len(out) : out[k] = "call|ns." \o x => out[k + 1] = "I|" \o x
-ImportsBeforeContext == (Done /\ cfg.fam = "nsprec") =>
-   \A k \in 1..Len(out) : \A x \in Names : (out[k] = "call|" \o x /\ x \in Imported(cfg)) => out[k + 1] \in {"I|" \o x, "F|" \o x}
+ImportsBeforeContext ==
+  /\ (Done /\ cfg.fam = "nsprec") =>
+       \A k \in 1..Len(out) : \A x \in Names : (out[k] = "call|" \o x /\ x \in Imported(cfg)) => out[k + 1] \in {"I|" \o x, "F|" \o x}
+  (* every import of every tag -- named or anonymous, wherever the tag stands on its line -- is answered by that tag's provider *)
+  /\ (Done /\ cfg.fam = "imports") =>
+       \A t \in 1..Len(cfg.tags) : \A x \in ImportedBy(t) :
+          \E k \in 1..(Len(out) - 1) : out[k] = "call|" \o x /\ out[k + 1] = ProviderTok(t, x)
 InheritableReachable == (Done /\ cfg.fam = "inh") => \A k \in 1..Len(out) : out[k] \notin {"ERR|p"}
 (* what a def of a namespace observes is what it observes when that namespace is the only one declared:  *)
 (* it does not depend on which other namespaces the template declares, nor on their order               *)
